@@ -356,3 +356,25 @@ pub fn co_qual_st(g: &Goal, st: &crate::refsem::EvalStats, open_goal_on_cyclic_p
         ""
     }
 }
+
+/// the goal assumes something: an `if (..)` in its prefix or inside an inner `forall<..> { if (..) { .. } }` literal
+pub fn goal_has_hypothesis(g: &Goal) -> bool {
+    fn lit(l: &Lit) -> bool {
+        match l {
+            Lit::Inner(_, hyps, inner) => !hyps.is_empty() || lit(inner),
+            Lit::Not(x) => lit(x),
+            _ => false,
+        }
+    }
+    g.prefix.iter().any(|p| matches!(p, Prefix::If(_))) || g.body.iter().any(lit)
+}
+
+/// qualifier of the recorded recursive-solver finding for differences between two runs (order, history, cache, logged
+/// program): the goal has hypotheses and an implied-bound clause of the program can introduce an existential
+pub fn env_qual(g: &Goal, p: &Program) -> &'static str {
+    if goal_has_hypothesis(g) && env_existential(p) {
+        ":env-with-trait-params"
+    } else {
+        ""
+    }
+}
